@@ -160,6 +160,8 @@ func (cm *FaultCM) GetHandler(from, to module.Address, value *big.Int, ctype int
 type CallTx struct {
 	*ScriptTx
 	from, to module.Address
+	dataType *string
+	data     []byte
 }
 
 // NewCallTx makes the idx-th transaction of a block: a zero-value transfer from -> to.
@@ -176,7 +178,7 @@ func NewCallTx(salt string, idx int, ts int64, from, to module.Address) transact
 func (t *CallTx) From() module.Address { return t.from }
 func (t *CallTx) To() module.Address   { return t.to }
 func (t *CallTx) GetHandler(cm contract.ContractManager) (transaction.Handler, error) {
-	return transaction.NewHandler(cm, module.TransactionGroupNormal, t.from, t.to, big.NewInt(0), big.NewInt(1000000), nil, nil)
+	return transaction.NewHandler(cm, module.TransactionGroupNormal, t.from, t.to, big.NewInt(0), big.NewInt(1000000), t.dataType, t.data)
 }
 
 // SetupTx plays the role of a genesis: it configures the fee system (step
@@ -224,6 +226,14 @@ func (t *SetupTx) Execute(ctx contract.Context, wcs state.WorldSnapshot, estimat
 	for i := 0; i < NSenders; i++ {
 		ctx.GetAccountState(SenderAddr(i).ID()).SetBalance(big.NewInt(1_000_000_000_000_000))
 	}
+	// the harness system SCORE (content type "system") at ExecScoreAddr
+	RegisterExecScore()
+	cc := contract.NewCallContext(ctx, big.NewInt(1<<62), false)
+	defer cc.Dispose()
+	if err := contract.DeployAndInstallSystemSCORE(cc, ExecScoreCID, SenderAddr(0), ExecScoreAddr, nil, t.ID()); err != nil {
+		return nil, err
+	}
+	cc.UpdateSystemInfo()
 	r := txresult.NewReceipt(ctx.Database(), ctx.Revision(), t.To())
 	r.SetResult(module.StatusSuccess, new(big.Int), new(big.Int), nil)
 	return r, nil
